@@ -47,6 +47,7 @@ type result struct {
 	elapsed  time.Duration
 	hung     bool
 	accepted bool
+	stack    uint64 // growth of goroutine stack memory across the call
 }
 
 // exercise runs the whole accessor chain for one input on its own goroutine and measures it.
@@ -93,6 +94,9 @@ func exercise(c Case) result {
 	r.elapsed = time.Since(start)
 	runtime.ReadMemStats(&m1)
 	r.alloc = m1.TotalAlloc - m0.TotalAlloc
+	if m1.StackInuse > m0.StackInuse {
+		r.stack = m1.StackInuse - m0.StackInuse
+	}
 	if r.alloc > 64<<20 {
 		// give a balloon back at once so that one finding cannot snowball into an out-of-memory kill
 		runtime.GC()
@@ -123,6 +127,12 @@ func check(c Case) (kind, what string, r result) {
 		return k + "hang", fmt.Sprintf("%s on %d input bytes did not return within %v (stage %s) (%s)", c.Target, len(c.Data), timeBudget(len(c.Data)), r.stage, c.Desc), r
 	case r.panicMsg != "":
 		return k + "panic", fmt.Sprintf("panic escaped to the caller at stage %s: %s (%s)", r.stage, r.panicMsg, c.Desc), r
+	}
+	// stack memory counts as memory: parsing must not keep a frame (or more) per input byte
+	if sl := uint64(8<<20) + 4*uint64(len(c.Data)); r.stack > sl {
+		if r2 := exercise(c); r2.stack > sl {
+			return k + "stack", fmt.Sprintf("%s grew the goroutine stack by %d bytes for %d input bytes (bound 8 MiB + 4*len = %d) (%s)", c.Target, r2.stack, len(c.Data), sl, c.Desc), r
+		}
 	}
 	limit := uint64(boundA) + boundB[c.Target]*uint64(len(c.Data))
 	if r.alloc > limit {
@@ -267,7 +277,7 @@ func amplifiers() []Case {
 	}
 	// long runs of one byte value after each format's signature: anything that keeps per-byte state (recursion,
 	// a growing slice) shows up as stack or heap growth, or as a crash, only for inputs of tens of MiB
-	runLen := ev.Pick(24<<20, 72<<20)
+	runLen := ev.Pick(20<<20, 72<<20)
 	for _, b := range []byte{0xFF, 0x00} {
 		run := bytes.Repeat([]byte{b}, runLen)
 		for _, pre := range []struct {
@@ -279,6 +289,9 @@ func amplifiers() []Case {
 			{"PNG signature+IHDR", "png", append(append([]byte(nil), build.PNGSig...), 0, 0, 0, 13, 'I', 'H', 'D', 'R', 0, 0, 0, 1, 0, 0, 0, 1, 8, 2, 0, 0, 0, 1, 2, 3, 4)},
 			{"RIFF WEBP VP8X+ICC flag", "webp", []byte("RIFF\xff\xff\xff\x7fWEBPVP8X\x0a\x00\x00\x00\x20\x00\x00\x00\x01\x00\x00\x01\x00\x00")},
 		} {
+			if !ev.Thorough() && ((pre.target == "jpeg") != (b == 0xFF)) && pre.name != "JPEG SOI+SOF+SOS" {
+				continue // quick: 0xFF runs for JPEG (marker fill bytes), 0x00 runs for the chunked formats
+			}
 			d := append(append([]byte(nil), pre.head...), run...)
 			out = append(out, Case{Desc: fmt.Sprintf("%s followed by %d bytes of %#02x", pre.name, runLen, b), Target: pre.target, Data: d})
 			if pre.target == "jpeg" && b == 0xFF {
